@@ -14,6 +14,7 @@ tvars == <<p, tid, l, status, jv>>
 
 ASSUME \A i \in 1..Len(Logs) : TLCSet(i, <<0, "ok">>)
 ASSUME Crc5TableOk
+ASSUME Crc32StreamOk
 
 TInit == /\ p = RxInit
          /\ tid \in 1..Len(Logs)
@@ -23,7 +24,7 @@ TInit == /\ p = RxInit
 
 TNext == /\ status = "ok"
          /\ l <= Len(Logs[tid])
-         /\ jv' = Judge(p, Logs[tid][l])
+         /\ \E p0 \in {RxConsume(p, Logs[tid][l].iw)} : \E p1 \in {RxResolve(p0)} : jv' = JudgeE(p, p1, Logs[tid][l])
          /\ status' = jv'.f
          /\ p' = jv'.n
          /\ l' = l + 1
